@@ -22,7 +22,7 @@ from __future__ import annotations
 import ast
 
 from .. import sym
-from ..model import AnalysisError, Program, attr_chain, bind_args, norm_stmt
+from ..model import AnalysisError, Program, attr_chain, bind_args, norm_stmt, src_line
 from ..paths import Engine, Hooks, Opaque, Seq, State, Const, describe_trail
 from ..report import Result
 from ..selftest import Variant
@@ -106,9 +106,9 @@ def _check_per_run_state(prog: Program, res: Result):
             init = b.methods.get("__init__")
             if init is not None and any(isinstance(x, ast.Assign) and any(attr_chain(t) == "self.searchTracker" for t in x.targets) and isinstance(x.value, ast.List) and not x.value.elts for x in ast.walk(init.node)):
                 fresh = True
-        res.ob("R12.5", f"{c.name}: the search log starts as a fresh empty list in the constructor", fresh, f"{c.module.replace('.', '/')}.py:{c.node.lineno}")
+        res.ob("R12.5", f"{c.name}: the search log starts as a fresh empty list in the constructor", fresh, f"{c.module.replace('.', '/')}.py:{src_line(c.node)}")
         if not fresh and not hit:
-            res.violation("R12.5", f"log-not-fresh|{cq}", f"{c.module.replace('.', '/')}.py:{c.node.lineno}", cq, f"{c.name} does not start its search log as a fresh list: rows of other searches can appear in the report")
+            res.violation("R12.5", f"log-not-fresh|{cq}", f"{c.module.replace('.', '/')}.py:{src_line(c.node)}", cq, f"{c.name} does not start its search log as a fresh list: rows of other searches can appear in the report")
     if n < 2:
         raise AnalysisError("search classes with a search log not found")
 
